@@ -221,6 +221,8 @@ pub enum E {
     AssignLocal(usize, Box<E>),
     AssignSubscript(usize, Box<E>, Box<E>),
     ConsoleLog(&'static str, Vec<E>),
+    /// verbatim text of the given (claimed) type; used for planted faults, never evaluated
+    Raw(String, T),
 }
 
 #[derive(Clone, Debug, PartialEq)]
@@ -235,6 +237,8 @@ pub enum S {
     Break,
     Return(Option<E>),
     Empty,
+    /// verbatim statement text (planted faults)
+    Raw(String),
 }
 
 #[derive(Clone, Debug, PartialEq)]
@@ -329,6 +333,7 @@ fn prec_of(e: &E) -> u8 {
         E::Ternary(..) => 2,
         E::Un(..) => 14,
         E::Cast(..) => 0, // always parenthesised by the printer itself
+        E::Raw(..) => 0,
         E::AssignProp(..) | E::AssignLocal(..) | E::AssignSubscript(..) => 1,
         E::Int(v, _) | E::UInt(v, _) if *v < 0 => 14,
         E::Float(v, _) if *v < 0.0 || (*v == 0.0 && v.is_sign_negative()) => 14,
@@ -401,6 +406,7 @@ pub fn print_expr(e: &E, n: &Names) -> String {
         E::AssignLocal(i, v) => format!("{} = {}", n.locals[*i].name, sub(v, 2)),
         E::AssignSubscript(i, idx, v) => format!("{}[{}] = {}", n.locals[*i].name, print_expr(idx, n), sub(v, 2)),
         E::ConsoleLog(lv, args) => format!("console.{}({})", lv, args.iter().map(|x| print_expr(x, n)).collect::<Vec<_>>().join(", ")),
+        E::Raw(t, _) => t.clone(),
     }
 }
 
@@ -464,6 +470,7 @@ pub fn print_stmt(s: &S, n: &Names, ind: usize, out: &mut String) {
         S::Return(None) => out.push_str(&format!("{pad}return;\n")),
         S::Return(Some(e)) => out.push_str(&format!("{pad}return {};\n", print_expr(e, n))),
         S::Empty => out.push_str(&format!("{pad};\n")),
+        S::Raw(t) => out.push_str(&format!("{pad}{t}\n")),
     }
 }
 
@@ -776,6 +783,7 @@ impl Interp<'_> {
                 self.trace.push(TraceItem::Log(lv, vs));
                 V::Void
             }
+            E::Raw(..) => return Err(Undef::Other("raw text")),
         })
     }
 
@@ -864,6 +872,7 @@ impl Interp<'_> {
             S::Return(None) => Ok(Flow::Return(V::Void)),
             S::Return(Some(e)) => Ok(Flow::Return(self.eval(e)?)),
             S::Empty => Ok(Flow::Next),
+            S::Raw(_) => Err(Undef::Other("raw text")),
         }
     }
 
